@@ -318,7 +318,7 @@ func (p *c09) driverTimeout(c *verifsim.Chooser, st *Stats, render bool) *Outcom
 	family := "driver " + s.Family
 	switch {
 	case res.hung:
-		o.violate("C09/not-stopped", family, "`evalfilter %s` did not terminate (10 s of wall clock)", strings.Join(args, " "))
+		o.violate("C09/not-stopped", family, "`evalfilter %s` did not terminate (25 s of wall clock)", strings.Join(args, " "))
 	case res.stat == nil:
 		o.violate("C09/harness", "no-stat", "the simulated driver wrote no statistics (exit %d, stderr %s)", res.code, clip(res.stderr, 300))
 	default:
